@@ -6,7 +6,6 @@ import os
 import re
 
 from vlib import core
-from rs2v import consts_lite
 
 BINS = [b for b in ["h_cltv", "h_deadline"] if os.path.exists(os.path.join(core.HARNESS, "src", "bin", b + ".rs"))]
 LEVEL = "proof"
@@ -18,24 +17,20 @@ MANIFEST = {
 }
 FEATURES = ["std", "_test_utils", "_verif_hooks"]
 
-CONST_ITEMS = [("lightning/src/chain/channelmonitor.rs", n) for n in [
-    "COUNTERPARTY_CLAIMABLE_WITHIN_BLOCKS_PINNABLE", "MAX_BLOCKS_FOR_CONF", "CLTV_CLAIM_BUFFER",
-    "LATENCY_GRACE_PERIOD_BLOCKS", "ANTI_REORG_DELAY", "HTLC_FAIL_BACK_BUFFER"]] + [
-    ("lightning/src/ln/channelmanager.rs", n) for n in [
-        "MIN_CLTV_EXPIRY_DELTA", "CLTV_FAR_FAR_AWAY", "MIN_FINAL_CLTV_EXPIRY_DELTA",
-        "_ASSUMED_COUNTERPARTY_CLTV_CLAIM_BUFFER", "MPP_TIMEOUT_TICKS"]]
+CONST_NAMES = ["COUNTERPARTY_CLAIMABLE_WITHIN_BLOCKS_PINNABLE", "MAX_BLOCKS_FOR_CONF", "CLTV_CLAIM_BUFFER",
+               "LATENCY_GRACE_PERIOD_BLOCKS", "ANTI_REORG_DELAY", "HTLC_FAIL_BACK_BUFFER", "MIN_CLTV_EXPIRY_DELTA",
+               "CLTV_FAR_FAR_AWAY", "MIN_FINAL_CLTV_EXPIRY_DELTA", "_ASSUMED_COUNTERPARTY_CLTV_CLAIM_BUFFER", "MPP_TIMEOUT_TICKS"]
+CONST_ITEMS = [(None, n) for n in CONST_NAMES]
 
 
 def generate(ctx):
-    text, meta = consts_lite.extract(core.REPO, CONST_ITEMS, FEATURES)
-    core.write_if_changed(os.path.join(core.COQ, "Gen", "Consts.v"), text)
-    ctx.gen_meta = meta
-    try:
-        from props import _gen_cltv
-        ctx.gen_meta = meta + _gen_cltv.generate(ctx)
-    except ImportError:
-        pass
-    return meta
+    """Regenerate Gen/Consts.v and Gen/CltvChecks.v from /repo with rs2v. A refusal is recorded and
+    treated as a broken obligation by run()."""
+    from vlib import gen
+    metas, errors = gen.regen(ctx, ["Consts", "CltvChecks"])
+    if errors:
+        raise RuntimeError("; ".join("%s: %s" % kv for kv in sorted(errors.items())))
+    return ctx.gen_meta
 
 
 # ----------------------------------------------------------------- case generation
@@ -94,23 +89,24 @@ def thr_cases(rng, tier):
     return sorted(set(cases))
 
 
-COQ_IMPORTS = ["LdkV.Prim.U64", "LdkV.Gen.Consts", "LdkV.Model.CltvHand"]
+COQ_IMPORTS = ["LdkV.Prim.U64", "LdkV.Gen.Consts", "LdkV.Gen.CltvChecks", "LdkV.Model.CltvHand"]
 PRELUDE = """
 Open Scope Z_scope.
 Definition thr (c : Z * Z * Z) : Z :=
   let '(h, kind, csv) := c in
-  let r := h_confirmation_threshold h (if (kind =? 0) || (csv <? 0) then None else Some csv) in
-  (* -1 encodes a debug-build panic: a u32 addition overflows or [height + csv - 1] underflows *)
-  if (h + ANTI_REORG_DELAY <? 2 ^ 32) && ((kind =? 0) || (csv <? 0) || ((h + csv <? 2 ^ 32) && (0 <=? h + csv - 1))) then r else -1.
+  let k := if (kind =? 0) then OnchainEventKind_Other else OnchainEventKind_SpendConfirmation in
+  let o := if (csv <? 0) then None else Some csv in
+  (* -1 encodes a debug-build panic *)
+  if confirmation_threshold_safe h k 0 o then confirmation_threshold h k 0 o else -1.
 Open Scope string_scope.
 Definition show_fwd (c : Z * Z * Z * Z) : string :=
   let '(h, o, i, d) := c in
-  if h_check_incoming_htlc_cltv_safe h o i d then
-    match h_check_incoming_htlc_cltv h o i d with ROk _ => "Ok" | RErr e => "Err " ++ e end
+  if check_incoming_htlc_cltv_safe h o i d then
+    match check_incoming_htlc_cltv h o i d with ROk _ => "Ok" | RErr e => "Err " ++ e end
   else "PANIC".
 Definition show_mpp (c : Z * Z) : string :=
   let '(cltv, h) := c in
-  if h_check_onchain_timeout_safe cltv h then (if h_check_onchain_timeout cltv h then "true" else "false") else "PANIC".
+  if check_onchain_timeout_safe cltv h then (if check_onchain_timeout cltv h then "true" else "false") else "PANIC".
 """
 
 
@@ -148,7 +144,7 @@ def functional(ctx):
     impl_thr = lines[1 + len(fwd) + len(mpp):]
     # model side
     exprs = []
-    exprs.append("[" + "; ".join(n for _, n in CONST_ITEMS) + "]")
+    exprs.append("[" + "; ".join(n for _, n in CONST_ITEMS) + "]%Z")
     B = 400
     fch, mch, tch = chunks(fwd, B), chunks(mpp, B), chunks(thr, B)
     for ch in fch:
@@ -287,7 +283,7 @@ def run(ctx):
     # model + proofs
     proved = False
     if gen_err is None:
-        okm, outm = ctx.coq_make(["Model/CltvHand.vo", "Model/Timeline.vo"])
+        okm, outm = ctx.coq_make(["Gen/Consts.vo", "Gen/CltvChecks.vo", "Model/CltvHand.vo"])
         proved = ctx.prove("C08")
     else:
         ctx.obligations.append(("rs2v-generation", False, gen_err))
@@ -295,7 +291,7 @@ def run(ctx):
     ctx.trusted_base += [
         "Coq 8.16.1 kernel + vm_compute (no native_compute)",
         "tools/rs2v (constant/predicate extraction from the Rust source, regenerated every run)",
-        "Model/CltvHand.v hand transliteration, tied by functional correspondence through lightning feature _verif_hooks",
+        "rs2v rewrites for confirmation_threshold / should_broadcast (listed in Gen/CltvChecks.v comments); generated code additionally validated by functional correspondence through lightning feature _verif_hooks",
         "hypothesis of the timeline theorems: a broadcast transaction confirms within MAX_BLOCKS_FOR_CONF blocks (library's stated bound)",
         "harness crate /verif/harness (h_cltv, h_deadline) and LDK functional_test_utils",
     ]
@@ -327,7 +323,7 @@ def run(ctx):
     if not proved:
         broken.append({"obligation": "Coq proof of Props/C08.v", "detail": getattr(ctx, "proof_failure", {"where": gen_err})})
     if dis:
-        broken.append({"correspondence": "h_cltv vs Model/CltvHand.v", "first_disagreements": dis[:5], "n": len(dis)})
+        broken.append({"correspondence": "h_cltv (real functions) vs Gen/CltvChecks.v (rs2v output)", "first_disagreements": dis[:5], "n": len(dis)})
     if e2e_fails:
         for f in e2e_fails[:3]:
             ctx.violation("end-to-end deadline scenario violates C08: " + f.get("why", ""), {"broken": "e2e judge", "scenario": f, "replay_cmd": "%s replay '%s'" % (ctx.bin_path("h_deadline"), json.dumps(f.get("params", {})))}, True,
